@@ -253,3 +253,67 @@ pub fn verdict_alone(lane: &Lane, spec: &AppSpec) -> Result<PavexcVerdict, Strin
     let r = lane.pavexc(&bp, "ind/sdk_0", None, false, &[]);
     Ok(PavexcVerdict::from(&r))
 }
+
+/// sha256-free content fingerprint (FNV over the bytes) + mtime in ns, for a set of files.
+pub fn fingerprint(paths: &[std::path::PathBuf]) -> Vec<(String, Option<(u64, u128)>)> {
+    paths
+        .iter()
+        .map(|p| {
+            let fp = std::fs::read(p).ok().map(|b| {
+                let mut h: u64 = 0xcbf29ce484222325;
+                for x in &b {
+                    h ^= *x as u64;
+                    h = h.wrapping_mul(0x100000001b3);
+                }
+                let mt = std::fs::metadata(p).and_then(|m| m.modified()).ok().and_then(|t| t.duration_since(std::time::UNIX_EPOCH).ok()).map(|d| d.as_nanos()).unwrap_or(0);
+                (h ^ ((b.len() as u64) << 48), mt)
+            });
+            (p.file_name().map(|f| f.to_string_lossy().to_string()).unwrap_or_default(), fp)
+        })
+        .collect()
+}
+
+/// Every file below `dir` with its content hash (no mtimes).
+pub fn tree_hash(dir: &std::path::Path) -> std::collections::BTreeMap<String, u64> {
+    fn rec(base: &std::path::Path, d: &std::path::Path, out: &mut std::collections::BTreeMap<String, u64>) {
+        if let Ok(rd) = std::fs::read_dir(d) {
+            for e in rd.flatten() {
+                let p = e.path();
+                if p.is_dir() {
+                    rec(base, &p, out);
+                } else if let Ok(b) = std::fs::read(&p) {
+                    let mut h: u64 = 0xcbf29ce484222325;
+                    for x in &b {
+                        h ^= *x as u64;
+                        h = h.wrapping_mul(0x100000001b3);
+                    }
+                    out.insert(p.strip_prefix(base).unwrap_or(&p).display().to_string(), h ^ ((b.len() as u64) << 48));
+                }
+            }
+        }
+    }
+    let mut out = Default::default();
+    rec(dir, dir, &mut out);
+    out
+}
+
+/// Prepare the workspace for verdict-only runs: writes and builds the application crate.
+pub fn prepare(lane: &Lane, specs: &[AppSpec]) -> Result<(), String> {
+    lane.write_workspace(specs);
+    let b = lane.build_app();
+    if !b.ok() {
+        return Err(b.stderr.chars().take(4000).collect());
+    }
+    Ok(())
+}
+
+/// Verdict on sub-application `k` of the prepared workspace, written to `ind/sdk_<slot>`.
+pub fn verdict_k(lane: &Lane, k: usize, slot: usize, check: bool, env: &[(&str, &str)], diagnostics: Option<&std::path::Path>) -> PavexcVerdict {
+    let bp = bp_path(lane, &format!("one{k}"));
+    let p = lane.persist("one", k as u64, &bp);
+    if !p.ok() {
+        return PavexcVerdict { code: None, n_errors: 0, panicked: false, timed_out: false, stderr: format!("persist failed: {}", p.stderr), wall_ms: 0 };
+    }
+    let r = lane.pavexc(&bp, &format!("ind/sdk_{slot}"), diagnostics, check, env);
+    PavexcVerdict::from(&r)
+}
